@@ -310,7 +310,7 @@ _cache = {}
 
 
 def analyse(f):
-    key = (f[0], f[1], len(f[2]))
+    key = tuple(f)
     r = _cache.get(key)
     if r is None:
         q = parse_v(f)
